@@ -215,6 +215,7 @@ STATES = {
     "stopped": "import os, signal\nchannel.send(1)\nos.kill(os.getpid(), signal.SIGSTOP)",
     "threads": "import threading, time\nfor i in range(3):\n    threading.Thread(target=time.sleep, args=(1000,)).start()\nchannel.send(1)\nchannel.receive()",
     "dead": "import os\nchannel.send(1)\nos._exit(3)",
+    "threads_done": "import threading, time\nthreading.Thread(target=time.sleep, args=(1000,)).start()\nchannel.send(1)",   # the body ends, a non-daemon thread stays
 }
 
 
@@ -274,6 +275,9 @@ def part_b(ck, tier, rng):
         k = rng.choice([1, 1, 2, 3])
         members = [(states[(i + j * 4) % len(states)] if j == 0 else rng.choice(states), rng.choice(["thread", "main_thread_only"])) for j in range(k)]
         jobs.append((members, rng.choice([0.2, 1.0] if tier == "quick" else [0.2, 1.0, 3.0]), rng.choice(["popen", "popen", "via"])))
+    # a worker reached through another gateway whose body left a non-daemon thread behind; a busy one
+    jobs.append(([("threads_done", "thread")], 1.0, "via"))
+    jobs.append(([("busy", "thread")], 0.5, "via"))
     results = []
     lock = threading.Lock()
 
@@ -304,6 +308,9 @@ def part_b(ck, tier, rng):
             ck.fail("group-not-empty-after-terminate", ex)
         if o["alive_after"]:
             ck.fail("local-child-alive-after-terminate:%s" % o["members"][0][0], ex)
+        if o["alive_remote_after"]:
+            # topology via: the member's process was started on this machine by the (local) master gateway
+            ck.fail("via-sub-child-alive-after-terminate:%s" % o["members"][0][0], ex)
     ck.cov["real_groups"] = len(results)
     ck.cov["returned_after_s"] = sorted(round(o.get("returned_after", -1), 2) for o in results)
 
@@ -396,6 +403,58 @@ def part_c(ck, tier, rng):
                     pass
 
 
+def part_d(ck, tier, rng):
+    """members that were exit()ed before terminate(); terminate() while a local thread is blocked in a send to a stopped worker"""
+    import execnet
+    from props import xport as X
+
+    for rd, stop in enumerate([True, False] if tier == "quick" else [True, False, True, False]):
+        group = execnet.Group()
+        gw = group.makegateway("popen//id=ex%d" % rd)
+        pid = gw._rinfo().pid
+        if stop:
+            os.kill(pid, signal.SIGSTOP)          # the worker cannot follow the exit request by itself
+        gw.exit()
+        t0 = time.time()
+        st, _ = X.with_timeout(lambda: group.terminate(timeout=1.0), 20)
+        dt = time.time() - t0
+        time.sleep(0.3)
+        ck.case(("exit-then-terminate", rd, stop), nontrivial=True)
+        ck.count("exit_then_terminate")
+        left = pid_alive(pid)
+        if st != "ok" or dt > 2 * (1.0 + K) + SLACK:
+            ck.fail("terminate-returns-late:after-exit", {"stopped": stop, "status": st, "seconds": dt})
+        if left:
+            ck.fail("local-child-alive-after-terminate:exited-before-terminate", {"stopped": stop, "pid": pid, "terminate_seconds": dt})
+            try:
+                os.kill(pid, signal.SIGCONT)
+                os.kill(pid, signal.SIGKILL)
+            except OSError:
+                pass
+    # the write of the exit request is not covered by the time-out: a stopped worker and a local sender that fills the pipe
+    group = execnet.Group()
+    gw = group.makegateway("popen//id=full")
+    pid = gw._rinfo().pid
+    ch = gw.remote_exec("channel.receive()")
+    os.kill(pid, signal.SIGSTOP)
+    th = threading.Thread(target=lambda: X.with_timeout(lambda: ch.send(b"x" * (4 << 20)), 30), daemon=True)
+    th.start()
+    time.sleep(0.5)
+    t0 = time.time()
+    st, _ = X.with_timeout(lambda: group.terminate(timeout=1.0), 8)
+    dt = time.time() - t0
+    ck.case(("terminate-with-blocked-sender",), nontrivial=True)
+    ck.count("terminate_with_blocked_sender")
+    if st != "ok":
+        ck.fail("terminate-blocks-in-exit-write:stopped-worker-and-blocked-local-sender", {"status": st, "seconds": dt, "timeout": 1.0})
+    try:
+        os.kill(pid, signal.SIGCONT)
+        os.kill(pid, signal.SIGKILL)
+    except OSError:
+        pass
+    th.join(10)
+
+
 def main(tier, seed, replay=None):
     ck = Check("C05", tier, seed)
     ck.assumptions += [
@@ -409,5 +468,6 @@ def main(tier, seed, replay=None):
     part_a(ck, ok, tier, rng)
     part_b(ck, tier, rng)
     part_c(ck, tier, rng)
+    part_d(ck, tier, rng)
     ck.cov["traces_validated_against_impl"] = ck.cov.get("safe_terminate_cases", 0) + ck.cov.get("forest_cases", 0)
     return ck.finish(rule="(a) real safe_terminate on 0-4 scripted members (join time d in {never, 0, 1, T, T+1, 2T, 3T+1, 40}, kill duration k in {0, 1, T, 3T, hangs}) for T in {1, 2, 3, 5} under the virtual clock vs the model (return time, kill decisions); real Group.terminate on stub gateways over generated via forests of 1-6 gateways vs the model's pass count; (b) real groups of 1-3 popen workers (thread / main_thread_only), optionally one of them via a master, in 9 remote states, timeouts {0.2, 1 (, 3)}; (c) makegateway with a taken id / a non-existing interpreter. distinct = distinct scripted member list / forest / (states, timeout, topology).")
